@@ -123,6 +123,11 @@ CHECKS.update({
         assumptions=WF_ASSUME + ["width = bytes per line, the wrapper's own measure"],
     ),
 })
+def _c15cli(tier, seed):
+    import c15cli
+    return c15cli.explore(tier, seed)
+
+
 CHECKS.update({
     "C07": dict(
         level="exploration",
@@ -147,7 +152,7 @@ CHECKS.update({
         assumptions=["the value model (oracles2.rs: ml_lit) is the property's definition: interior lines minus the closing line's indentation, a blank line that is a prefix of it counts as empty"],
     ),
     "C15": dict(
-        level="exploration",
+        level="exploration", cli=True, python=[_c15cli],
         rule="every input of the stated families x every cursor offset on a char boundary plus len+1, len+1000, u32::MAX: all at once, "
              "each alone, and every ordered pair for inputs <= 12 bytes; output must equal the cursor-free output, cursors in range and on "
              "char boundaries, cursors inside/at end of an unchanged token keep their offset in it, cursors past the end map to the end",
